@@ -2597,6 +2597,11 @@ class SSHConnection(SSHPacketHandler, asyncio.Protocol):
             if self._auth_request_task:
                 self._auth_request_task.cancel()
 
+            # Options of a key or certificate looked at by an earlier
+            # request must not be applied if this request is the one
+            # which succeeds
+            cast(SSHServerConnection, self).reset_key_options()
+
             self._auth_request_task = self.create_task(self._finish_userauth(
                 self._auth_request_seq, begin_auth, method, packet))
 
@@ -6050,6 +6055,12 @@ class SSHServerConnection(SSHConnection):
 
         self._keepalive_count_max = options.keepalive_count_max
         self._keepalive_interval = options.keepalive_interval
+
+    def reset_key_options(self) -> None:
+        """Forget the options of the last client key or certificate seen"""
+
+        self._key_options = {}
+        self._cert_options = None
 
     def choose_server_host_key(self,
                                peer_host_key_algs: Sequence[bytes]) -> bool:
